@@ -15,6 +15,7 @@ import (
 	"time"
 
 	sifapp "github.com/Sifchain/sifnode/app"
+	admintypes "github.com/Sifchain/sifnode/x/admin/types"
 	clp "github.com/Sifchain/sifnode/x/clp"
 	clpkeeper "github.com/Sifchain/sifnode/x/clp/keeper"
 	clptypes "github.com/Sifchain/sifnode/x/clp/types"
@@ -245,21 +246,7 @@ func (w *ammWorld) hook(op, class string, f func()) {
 	if class == "epoch" {
 		// eligibility judged from the harness's own ledger of accepted adds (not from the stored LastUpdatedBlock):
 		// whoever gained an asset from its bucket last added to that pool more than the lock period ago
-		var lk []string
-		for k := range w.lastAdd {
-			lk = append(lk, k)
-		}
-		sort.Strings(lk)
-		var lb strings.Builder
-		for _, k := range lk {
-			parts := strings.SplitN(k, "/", 2)
-			if strings.HasPrefix(parts[0], "ibc") { // the symbol itself contains a slash
-				i := strings.LastIndex(k, "/")
-				parts = []string{k[:i], k[i+1:]}
-			}
-			fmt.Fprintf(&lb, " %s %s %d", parts[0], parts[1], w.lastAdd[k])
-		}
-		w.out.Emit(fmt.Sprintf("chk c18.l1elig tag=epoch.eligible-by-ledger %d %d %d%s ||%s", lock, w.height, nch, sb.String(), lb.String()), "true", "chk.l1elig", nch > 0)
+		w.out.Emit(fmt.Sprintf("chk c18.l1elig tag=epoch.eligible-by-ledger %d %d %d%s ||%s", lock, w.height, nch, sb.String(), w.ledgerString()), "true", "chk.l1elig", nch > 0)
 	}
 	if class == "epoch" {
 		// whatever left a bucket reached a wallet or the asset's pool (both modes)
@@ -268,7 +255,29 @@ func (w *ammWorld) hook(op, class string, f func()) {
 	// epoch hook in wallet mode, no blocked recipient in this world: every eligible provider got its share
 	if class == "epoch" && len(w.blocked) == 0 && w.app.ClpKeeper.GetRewardsParams(w.ctx).RewardsDistribute {
 		w.out.Emit(fmt.Sprintf("chk c18.l1bucket tag=epoch.bucket %d %d%s %s", lock, nch, sb.String(), pre), "true", "chk.l1bucket", nch > 0)
+		// the same with eligibility taken from the harness's own ledger of accepted creates / adds / removals
+		// instead of the stored update heights: a hook may not restart anybody's lock period
+		w.out.Emit(fmt.Sprintf("chk c18.l1bucketl tag=epoch.bucket-by-ledger %d %d%s %s ||%s", lock, nch, sb.String(), pre, w.ledgerString()), "true", "chk.l1bucketl", nch > 0)
 	}
+}
+
+// ledgerString: " <sym> <addr> <height>" for every entry of the harness's ledger of accepted provider updates
+func (w *ammWorld) ledgerString() string {
+	var lk []string
+	for k := range w.lastAdd {
+		lk = append(lk, k)
+	}
+	sort.Strings(lk)
+	var lb strings.Builder
+	for _, k := range lk {
+		parts := strings.SplitN(k, "/", 2)
+		if strings.HasPrefix(parts[0], "ibc") { // the symbol itself contains a slash
+			i := strings.LastIndex(k, "/")
+			parts = []string{k[:i], k[i+1:]}
+		}
+		fmt.Fprintf(&lb, " %s %s %d", parts[0], parts[1], w.lastAdd[k])
+	}
+	return lb.String()
 }
 
 func (w *ammWorld) setHeight(h int64) {
@@ -309,6 +318,9 @@ func (w *ammWorld) frac(v *big.Int) *big.Int {
 
 func (w *ammWorld) step() {
 	rng := w.rng
+	if rng.Chance(1, 25) {
+		w.opDiscardedTx()
+	}
 	u := w.users[rng.Intn(len(w.users))]
 	sym := ammTokens[rng.Intn(len(ammTokens))]
 	p := w.pool(sym)
@@ -553,8 +565,73 @@ func (w *ammWorld) policy() {
 // configuredFee is the swap-fee rate the stored parameters configure for a token: the override whose asset
 // string is exactly the token's denomination, else the default rate. (Read from the parameters as stored, not
 // through the keeper's own lookup, which is part of what is being checked.)
+// storedRunningRate / storedSwapFeeParams: the ratio-shifting running rate and the swap fee parameters as the
+// committed store of this block holds them, decoded from the raw bytes — not through the keeper's getters, which
+// are code under test (a getter that answers from memory would otherwise judge itself).
+func (w *ammWorld) storedRunningRate() *big.Int {
+	bz := w.ctx.KVStore(w.app.GetKey(clptypes.StoreKey)).Get(clptypes.PmtpRateParamsPrefix)
+	if bz == nil {
+		return big.NewInt(0)
+	}
+	var p clptypes.PmtpRateParams
+	w.app.AppCodec().MustUnmarshal(bz, &p)
+	if p.PmtpCurrentRunningRate.IsNil() {
+		return big.NewInt(0)
+	}
+	return p.PmtpCurrentRunningRate.BigInt()
+}
+
+func (w *ammWorld) storedSwapFeeParams() clptypes.SwapFeeParams {
+	bz := w.ctx.KVStore(w.app.GetKey(clptypes.StoreKey)).Get(clptypes.SwapFeeParamsPrefix)
+	if bz == nil {
+		return *clptypes.GetDefaultSwapFeeParams()
+	}
+	var p clptypes.SwapFeeParams
+	w.app.AppCodec().MustUnmarshal(bz, &p)
+	return p
+}
+
+// opDiscardedTx: a transaction whose first messages are accepted parameter changes by their admin (running rate,
+// swap fee parameters, symmetry threshold, rewards lock period — through the real message server) and whose last
+// message fails: the whole transaction is discarded, so nothing may have changed — neither the state nor what the
+// following messages of the same block see.  The model is told nothing.
+func (w *ammWorld) opDiscardedTx() {
+	rng := w.rng
+	admin := w.users[0]
+	for _, t := range []admintypes.AdminType{admintypes.AdminType_PMTPREWARDS, admintypes.AdminType_CLPDEX} {
+		w.app.AdminKeeper.SetAdminAccount(w.ctx, &admintypes.AdminAccount{AdminType: t, AdminAddress: admin.String()})
+	}
+	cctx, _ := w.ctx.CacheContext()
+	g := sdk.WrapSDKContext(cctx)
+	func() {
+		defer func() { _ = recover() }()
+		for i := 0; i < 1+rng.Intn(2); i++ {
+			switch rng.Intn(4) {
+			case 0:
+				r := sdk.NewDecWithPrec(int64(1+rng.Intn(3000)), 3)
+				_, _ = w.srv.ModifyPmtpRates(g, &clptypes.MsgModifyPmtpRates{Signer: admin.String(), RunningRate: r.String()})
+			case 1:
+				req := &clptypes.MsgUpdateSwapFeeParamsRequest{Signer: admin.String(), DefaultSwapFeeRate: sdk.NewDecWithPrec(int64(rng.Intn(1000)), 3)}
+				for _, tok := range w.denoms {
+					if rng.Chance(1, 3) {
+						req.TokenParams = append(req.TokenParams, &clptypes.SwapFeeTokenParams{Asset: tok, SwapFeeRate: sdk.NewDecWithPrec(int64(rng.Intn(1000)), 3)})
+					}
+				}
+				_, _ = w.srv.UpdateSwapFeeParams(g, req)
+			case 2:
+				_, _ = w.srv.SetSymmetryThreshold(g, &clptypes.MsgSetSymmetryThreshold{Signer: admin.String(), Threshold: sdk.NewDecWithPrec(int64(rng.Intn(1000)), 4), Ratio: sdk.NewDecWithPrec(int64(rng.Intn(1000)), 4)})
+			default:
+				rp := w.app.ClpKeeper.GetRewardsParams(cctx)
+				_, _ = w.srv.UpdateRewardsParams(g, &clptypes.MsgUpdateRewardsParamsRequest{Signer: admin.String(), LiquidityRemovalLockPeriod: rp.LiquidityRemovalLockPeriod + 7, LiquidityRemovalCancelPeriod: rp.LiquidityRemovalCancelPeriod + 3, RewardsLockPeriod: rp.RewardsLockPeriod + 5, RewardsEpochIdentifier: rp.RewardsEpochIdentifier, RewardsDistribute: !rp.RewardsDistribute})
+			}
+		}
+	}()
+	// the last message failed: the branch is dropped
+	w.observe("tx.discarded")
+}
+
 func (w *ammWorld) configuredFee(tok string) *big.Int {
-	sp := w.app.ClpKeeper.GetSwapFeeParams(w.ctx)
+	sp := w.storedSwapFeeParams()
 	for _, tp := range sp.TokenParams {
 		if tp.Asset == tok {
 			return tp.SwapFeeRate.BigInt()
@@ -781,6 +858,9 @@ func (w *ammWorld) opRmu(u sdk.AccAddress, sym string, units *big.Int) {
 	pr := w.probeRemoval(u, sym)
 	w.tx(fmt.Sprintf("rmu %s %s %s", u, sym, units), "rmu", func(ctx sdk.Context) (string, error) {
 		_, err := w.srv.RemoveLiquidityUnits(sdk.WrapSDKContext(ctx), &clptypes.MsgRemoveLiquidityUnits{Signer: u.String(), ExternalAsset: asset(sym), WithdrawUnits: uintOf(units)})
+		if err == nil {
+			w.lastAdd[sym+"/"+u.String()] = w.height // an accepted removal is an update of the provider too
+		}
 		return "", err
 	})
 	pr.emit("rmu")
@@ -799,6 +879,9 @@ func (w *ammWorld) opRm(u sdk.AccAddress, sym string, wb int64) {
 	pr := w.probeRemoval(u, sym)
 	w.tx(fmt.Sprintf("rm %s %s %d", u, sym, wb), "rm", func(ctx sdk.Context) (string, error) {
 		_, err := w.srv.RemoveLiquidity(sdk.WrapSDKContext(ctx), &clptypes.MsgRemoveLiquidity{Signer: u.String(), ExternalAsset: asset(sym), WBasisPoints: sdk.NewInt(wb), Asymmetry: sdk.ZeroInt()})
+		if err == nil {
+			w.lastAdd[sym+"/"+u.String()] = w.height
+		}
 		return "", err
 	})
 	pr.emit("rm")
@@ -862,7 +945,7 @@ func (w *ammWorld) opSwap(u sdk.AccAddress, sent, recv string, amt, minR *big.In
 			nD, eD := poolDepths(p)
 			return nD.BigInt(), eD.BigInt(), true
 		}
-		rr := w.app.ClpKeeper.GetPmtpRateParams(w.ctx).PmtpCurrentRunningRate.BigInt()
+		rr := w.storedRunningRate()
 		ff := w.configuredFee(sent)
 		switch {
 		case sent == "rowan":
@@ -1254,6 +1337,29 @@ func init() {
 					w.opEpochsBegin(at)
 				}
 			}
+		}
+		// D24: two rewards epochs closer together than the rewards lock period, the first in pool mode (re-invested),
+		// then the distribute flag flipped: everybody past the lock period by its own messages is paid at the second
+		// (and the same with both epochs in pool mode / both in wallet mode)
+		for _, modes := range [][2]bool{{false, true}, {false, false}, {true, true}} {
+			w := newAmmWorld(rng, out, 4, -1)
+			w.fundAll()
+			w.setLock(10)
+			w.setDistribute(modes[0])
+			w.setHeight(100)
+			w.opCreate(w.users[0], "cusdc", e18(1000), e18(1000))
+			w.opAdd(w.users[1], "cusdc", e18(1000), e18(1000))
+			w.setHeight(195)
+			w.opAdd(w.users[2], "cusdc", e18(2000), e18(2000))
+			w.setHeight(196)
+			w.opBucket(w.users[3], "cusdc", e18(100))
+			w.setHeight(200)
+			w.opEpoch()
+			w.setHeight(203)
+			w.opBucket(w.users[3], "cusdc", e18(100))
+			w.setDistribute(modes[1])
+			w.setHeight(208)
+			w.opEpoch()
 		}
 		// D22: a provider record holding zero units (an add too small to mint a unit) in a pool that is then
 		// decommissioned: either the decommission is refused as a whole or every record goes with the pool
